@@ -29,7 +29,7 @@ func loGetPath(env string, defpath string) string {
 
 func loFindFile(L *LState, name, pname string) (string, string) {
 	name = strings.Replace(name, ".", string(os.PathSeparator), -1)
-	lv := L.GetField(L.GetField(L.Get(EnvironIndex), "package"), pname)
+	lv := L.GetField(L.Get(EnvironIndex), pname) // the searchers' environment is the package table
 	path, ok := lv.(LString)
 	if !ok {
 		L.RaiseError("package.%s must be a string", pname)
@@ -53,7 +53,11 @@ func OpenPackage(L *LState) int {
 
 	loaders := L.CreateTable(len(loLoaders), 0)
 	for i, loader := range loLoaders {
-		L.RawSetInt(loaders, i+1, L.NewFunction(loader))
+		// as in Lua 5.1 the package table is the environment of the searchers: they do not
+		// depend on what a script stores in the global variable "package"
+		fn := L.NewFunction(loader)
+		fn.Env = packagemod.(*LTable)
+		L.RawSetInt(loaders, i+1, fn)
 	}
 	L.SetField(packagemod, "loaders", loaders)
 	L.SetField(L.Get(RegistryIndex), "_LOADERS", loaders)
@@ -84,7 +88,7 @@ var loFuncs = map[string]LGFunction{
 
 func loLoaderPreload(L *LState) int {
 	name := L.CheckString(1)
-	preload := L.GetField(L.GetField(L.Get(EnvironIndex), "package"), "preload")
+	preload := L.GetField(L.Get(EnvironIndex), "preload")
 	if _, ok := preload.(*LTable); !ok {
 		L.RaiseError("package.preload must be a table")
 	}
